@@ -4,7 +4,7 @@ from .. import env, attach, gen, flow
 from ..mon_problem import mon_mapping_asset, mon_mapping_portfolio
 
 PROPERTY = 'C07'
-CASES = {'quick': 240, 'thorough': 5000}
+CASES = {'quick': 720, 'thorough': 5760}
 BUDGET_S = {'quick': 150, 'thorough': 1500}
 SUITE_UNDER_MONITORS = True      # thorough tier: the repository's own tests are an extra workload under the passive monitors
 RULE = ('case = one random mixed portfolio (every asset class incl. OrderBook with orders outside the horizon, periodic and coarse-frequency '
@@ -14,8 +14,8 @@ RULE = ('case = one random mixed portfolio (every asset class incl. OrderBook wi
         'Non-trivial: >=2 assets with variables and >=1 nodal row; distinct = distinct spec hashes.')
 ASSUMPTIONS = ['inputs EAO rejects by a documented domain assertion are counted as rejected',
                'disp_factor NaN in an asset mapping means 1 (as filled in by the portfolio)']
-MIN_NONVACUOUS = {'quick': {'portfolio.mapping_rows_point_to_own_variables': 300, 'portfolio.nodal_row_coefficients': 100,
-                            'portfolio.asset_rows_embedded': 100, 'asset.index_in_range': 500, 'asset.unmapped_inert': 10},
+MIN_NONVACUOUS = {'quick': {'portfolio.mapping_rows_point_to_own_variables': 750, 'portfolio.nodal_row_coefficients': 250,
+                            'portfolio.asset_rows_embedded': 250, 'asset.index_in_range': 1250, 'asset.unmapped_inert': 25},
                   'thorough': {'portfolio.mapping_rows_point_to_own_variables': 6000, 'portfolio.nodal_row_coefficients': 2000,
                                'asset.unmapped_inert': 200}}
 
